@@ -101,6 +101,7 @@ type c01Case struct {
 	Method    string         `json:"method,omitempty"`         // "" = GET
 	Path      string         `json:"path,omitempty"`           // "" = the rule's path /verif; else a sub path of it (matched) or any other path
 	Preflight bool           `json:"preflight,omitempty"`      // Origin + Access-Control-Request-Method headers (CORS is not configured)
+	Accept    *string        `json:"accept"`                   // Accept header (nil = absent): supported, */*, unsupported, q=0 for all supported, malformed
 	Upstream  string         `json:"upstream,omitempty"`       // what the upstream does if the request gets there: "" = 200, s<code>, abort
 	Socket    bool           `json:"socket,omitempty"`         // decision and proxy are served over a real loopback connection
 	Group     int            `json:"group"`                    // cases of one group share rule instance, executor and stacks
@@ -517,6 +518,10 @@ func c01Request(c c01Case) stacks.Req {
 		r.Headers["X-Verif-Upstream"] = c.Upstream
 	}
 
+	if c.Accept != nil {
+		r.Headers["Accept"] = *c.Accept
+	}
+
 	if c.Preflight {
 		r.Headers["Origin"] = "https://app.example"
 		r.Headers["Access-Control-Request-Method"] = "POST"
@@ -824,7 +829,7 @@ func c01GenCase(r *vf.Rand) c01Case {
 
 	c := c01Case{}
 	c.R = stacks.Respond{
-		Verbose: r.Chance(20),
+		Verbose: r.Chance(50),
 		Authn:   c01Code(r, g.odd), Authz: c01Code(r, g.odd), Comm: c01Code(r, g.odd), Precond: c01Code(r, g.odd),
 		NoRule: c01Code(r, g.odd), Internal: c01Code(r, g.odd),
 	}
@@ -905,6 +910,12 @@ func c01GenCase(r *vf.Rand) c01Case {
 	return c
 }
 
+var c01Accepts = []string{ //nolint:gochecknoglobals
+	"application/json", "text/html", "text/plain", "application/xml", "*/*", "text/*", "application/xml, */*;q=0.2",
+	"image/png", "application/pdf;q=0.9", "image/png, video/mp4", "foo", "garbage;;", "",
+	"text/html;q=0, application/json;q=0, text/plain;q=0, application/xml;q=0", "*/*;q=0",
+}
+
 // c01GenRequest draws the request: method, path, pre-flight headers, what request-dependent `to`
 // templates of redirect handlers render (nothing, blanks, a URL), what the upstream will do.
 func c01GenRequest(r *vf.Rand, c *c01Case) {
@@ -933,6 +944,14 @@ func c01GenRequest(r *vf.Rand, c *c01Case) {
 	}
 
 	c.Upstream = vf.Pick(r, []string{"", "", "", "", "s204", "s404", "s500", "s302", "abort", "abort"})
+
+	// content negotiation of (verbose) error responses must not change the status: no Accept header, supported types,
+	// wildcards, types that cannot be negotiated, q=0 for everything supported, malformed values
+	c.Accept = nil
+	if !r.Chance(20) {
+		a := vf.Pick(r, c01Accepts)
+		c.Accept = &a
+	}
 }
 
 // the value of a method-reading real condition follows from the request's method
@@ -1350,6 +1369,23 @@ func c01Tags(c c01Case, o c01Obs, groupSize int) []string {
 		t = append(t, "preflight-headers")
 	}
 
+	accept := "none"
+
+	if c.Accept != nil {
+		switch *c.Accept {
+		case "image/png", "application/pdf;q=0.9", "image/png, video/mp4":
+			accept = "unsupported"
+		case "foo", "garbage;;", "":
+			accept = "malformed-or-empty"
+		case "text/html;q=0, application/json;q=0, text/plain;q=0, application/xml;q=0", "*/*;q=0":
+			accept = "q0"
+		default:
+			accept = "negotiable"
+		}
+	}
+
+	t = append(t, fmt.Sprintf("accept:%s/verbose:%v", accept, c.R.Verbose))
+
 	if c.Path != "" {
 		t = append(t, "path:other")
 	}
@@ -1457,6 +1493,7 @@ func c01CorpusGroups() [][]c01Case {
 	canceled := &stacks.Node{K: "w", Sub: []stacks.Node{{K: "x", N: 0}}}
 	hdr := func(t string) c01Cond { return c01Cond{T: t, Real: true, RealKind: "hdr", CID: 1} }
 	none := c01Cond{T: "none"}
+	png, foo, q0 := "image/png", "foo", "text/html;q=0, application/json;q=0, text/plain;q=0, application/xml;q=0"
 
 	return [][]c01Case{
 		// credentials good, then bad, then good again: the second answer must not be the first one's
@@ -1480,6 +1517,15 @@ func c01CorpusGroups() [][]c01Case {
 		{
 			{Lookup: "matched", Upstream: "abort", Rule: &c01Rule{SC: []c01Authn{{Out: ok}}, Backend: true}},
 			{Lookup: "matched", Idx: 1, Upstream: "s404", Method: "HEAD", Rule: &c01Rule{SC: []c01Authn{{Out: ok}}, Backend: true}},
+		},
+		// verbose error responses and an Accept header that cannot be negotiated / is malformed: still the error status
+		{
+			{R: stacks.Respond{Verbose: true}, Lookup: "matched", Accept: &png, Rule: &c01Rule{SC: []c01Authn{{Out: c01Outcome{T: "fail", E: authn}}}, Backend: true}},
+			{R: stacks.Respond{Verbose: true}, Lookup: "matched", Idx: 1, Accept: &foo,
+				Rule: &c01Rule{SC: []c01Authn{{Out: c01Outcome{T: "fail", E: authz}}}, Backend: true}},
+		},
+		{
+			{R: stacks.Respond{Verbose: true}, Lookup: "norule", Accept: &q0, Socket: true},
 		},
 		// no rule / default rule for paths a shortcut might serve, over a real connection
 		{
